@@ -11,6 +11,7 @@
                   keyword arguments of `inverse_laplace(**assumptions)` reach the transformer's `causal` switch.
 -/
 import Lcapy.Proofs.LaplaceDS
+import Lcapy.Props.C10
 import Mathlib.Data.Complex.Basic
 import Mathlib.Tactic.IntervalCases
 namespace Lcapy.C10
@@ -75,6 +76,69 @@ theorem damped_sin_sqrt (b2 b1 b0 a2 a1 a0 sq1 sq2 : K) (ha : a2 ≠ 0) (hsq1 : 
 
 end
 
+section executed
+variable {K : Type} [Field K] (E : K → K)
+
+/-- THE EXECUTED SYNTHESIS (what Driver/C10.lean `ilt.model` runs and what is compared with Lcapy on every case):
+    polynomial part by the source-text loop `iltQsrc`, residue loop with conjugate pairing `ratfunLoop`.  Its forward transform
+    is the partial-fraction expression it was synthesised from — all data, any delay, every point that is not a listed pole.
+    (`ilt_laplace` of Props/C10.lean is the same statement for the plain synthesis `ilt pf` without pairing.) -/
+theorem ilt_executed_laplace [DecidableEq K] {J : K} (hJ : J * J = -1) (h20 : (1 + 1 : K) ≠ 0) (conj : K → K)
+    (Q : Poly K) (R : List (K × K × Nat)) (T s : K) (ho : ∀ x ∈ R, 0 < x.2.2) (hn : ∀ x ∈ R, s - x.2.1 ≠ 0) :
+    L E (iltQsrc T Q ++ ratfunLoop J conj T (R.length + 1) R) s = evalPF E ⟨Q, R, T⟩ s := by
+  rw [L_append, L_iltQsrc E rfl T s Q,
+    ratfun_loop_sound' E rfl hJ h20 conj T s (R.length + 1) R (Nat.le_succ _) ho hn, evalPF]
+  ring
+
+/-- … and with data accepted by the verified checker (the `(Q, R, P, O)` Lcapy really returned) the executed synthesis
+    inverts the input rational function times its delay factor, wherever the denominator does not vanish -/
+theorem ilt_executed_inverts [DecidableEq K] {J : K} (hJ : J * J = -1) (h20 : (1 + 1 : K) ≠ 0) (conj : K → K)
+    (B A Q : Poly K) (R : List (K × K × Nat)) (cofs : List (Poly K)) (T s : K)
+    (h : pfCheck B A Q R cofs = true) (ho : ∀ x ∈ R, 0 < x.2.2) (hA : Poly.eval A s ≠ 0) :
+    L E (iltQsrc T Q ++ ratfunLoop J conj T (R.length + 1) R) s = E (-(s * T)) * (Poly.eval B s / Poly.eval A s) := by
+  have hs := C10.pf_check_sound B A Q R cofs h s hA
+  rw [ilt_executed_laplace E hJ h20 conj Q R T s ho (fun x hx => hs.2 x hx (ho x hx)), evalPF, hs.1]
+
+end executed
+
+section causal_output
+variable {K : Type} [Field K] [LinearOrder K] [IsStrictOrderedRing K] (E : K → K)
+
+/-- The `causal=True` output of the executed model IS a causal signal: with a non-negative delay `T` the whole result of
+    `term` + `make` (polynomial part, residue loop with pairing, everything moved to the part known for all `t`, no
+    `t ≥ 0` condition) satisfies `Causal`; consequently it is zero before `t = 0` (`causal_zero_before`). -/
+theorem ilt_causal_output (J : K) (conj : K → K) (Q : Poly K) (R : List (K × K × Nat)) (T : K) (hT : 0 ≤ T) (hasDelay : Bool) :
+    let res := makeModel true [termModel true hasDelay (iltQsrc T Q) (ratfunLoop J conj T (R.length + 1) R)]
+    Causal (res.cpart ++ res.upart) ∧ res.guarded = false ∧
+      ∀ t, t < 0 → evalAt E (res.cpart ++ res.upart) t = 0 := by
+  intro res
+  have hall : AllDelay T (res.cpart ++ res.upart) := by
+    have : res.cpart ++ res.upart = iltQsrc T Q ++ ratfunLoop J conj T (R.length + 1) R := by
+      cases hasDelay <;> simp [res, makeModel, termModel]
+    rw [this]
+    exact (allDelay_iltQsrc T Q).append (allDelay_ratfunLoop J conj T _ R)
+  have hc : Causal (res.cpart ++ res.upart) := fun t ht => by rw [hall t ht]; exact hT
+  exact ⟨hc, make_causal' _, fun t ht => C10.causal_zero_before E _ hc t ht⟩
+
+/-- the same for the `damped_sin=True` route -/
+theorem damped_sin_causal_output (J : K) (nc dc : List K) (sq1 sq2 T : K) (hT : 0 ≤ T) (hasDelay : Bool) (c u : ExpPoly K)
+    (h : dampedSin J nc dc sq1 sq2 T = some (c, u)) :
+    let res := makeModel true [termModel true hasDelay c u]
+    Causal (res.cpart ++ res.upart) ∧ res.guarded = false ∧ ∀ t, t < 0 → evalAt E (res.cpart ++ res.upart) t = 0 := by
+  intro res
+  have hall : AllDelay T (res.cpart ++ res.upart) := by
+    have : res.cpart ++ res.upart = c ++ u := by cases hasDelay <;> simp [res, makeModel, termModel]
+    rw [this]; exact allDelay_dampedSin J nc dc sq1 sq2 T c u h
+  have hc : Causal (res.cpart ++ res.upart) := fun t ht => by rw [hall t ht]; exact hT
+  exact ⟨hc, make_causal' _, fun t ht => C10.causal_zero_before E _ hc t ht⟩
+
+-- non-vacuity: 0 ≤ 2 over ℚ; (2s+1) + 3/(s+1)², delayed by 2
+example : (0 : ℚ) ≤ 2 ∧ (iltQsrc (2 : ℚ) [1, 2] ++ ratfunLoop 0 id 2 2 [(3, -1, 2)]).length = 3 := by
+  refine ⟨by norm_num, ?_⟩
+  simp [iltQsrc, iltQgo, ratfunLoop, Gen.qCoeffsDense]
+
+end causal_output
+
 section g3
 variable {K : Type} [Field K] (E : K → K)
 
@@ -83,15 +147,19 @@ variable {K : Type} [Field K] (E : K → K)
 theorem delay_sum (pfs : List (PF K)) (s : K) (ho : ∀ pf ∈ pfs, ∀ x ∈ pf.R, 0 < x.2.2) :
     L E (iltSum pfs) s = (pfs.map (fun pf => evalPF E pf s)).sum := L_iltSum E pfs s ho
 
-/-- a delayed term is multiplied by its step and counted as known for all `t`: when every term of the sum is delayed
-    nothing is left in the unilateral part and no `t ≥ 0` condition is attached, whatever `causal` says -/
+/-- MODEL REMARK (bookkeeping of `term` + `make`, not a transform fact): a delayed term is multiplied by its step and put
+    into the part known for all `t`; when every term of the sum is delayed nothing is left in the unilateral part and no
+    `t ≥ 0` condition is attached, whatever `causal` says.  What ties the model to the code: `makeModel`'s two guard
+    conditions are read from the source of `make` on every run (`Gen.makeGuardOnlyIfNotCausal`, `Gen.makeGuardOnlyIfUnilateral`;
+    this proof needs the second: `rfl`), and the harness compares the model's `guarded` flag with the presence of
+    `Piecewise((…, t >= 0))` in the real result for every case and option set. -/
 theorem delayed_terms_unguarded [DecidableEq K] (causal : Bool) (parts : List (ExpPoly K × ExpPoly K)) :
     (makeModel causal (parts.map (fun cu => termModel causal true cu.1 cu.2))).guarded = false := by
   have : (parts.map (fun cu => termModel causal true cu.1 cu.2)).flatMap (fun x => x.2) = [] := by
     induction parts with
     | nil => rfl
     | cons x parts ih => simpa [termModel] using ih
-  simp [makeModel, this]
+  simp [makeModel, this, show Gen.makeGuardOnlyIfUnilateral = true from rfl]
 
 /-- the convolution route (`F(s)·V(s)`, `V` an undefined transform): for EVERY concrete causal signal `g` put in place
     of `v`, the integral `∫₀ᵗ f(t−τ) g(τ) dτ` (upper limit `t`, the `causal=True` form) with `f` the inverse transform of
